@@ -128,7 +128,7 @@ PROPS = {
         'explanation': 'payout = recorded share, single payment, order independence and the single-batch allocation bound proved; release groups of many batches with slashed unbonding stake, donations, many users per batch: released claims vs hub balance after every step, payout recomputed, second withdrawal, unfunded-claim probe (clone with extra coins)',
     },
     'C13': {
-        'corpus': ['reg-remove-zero-delegation.ops', 'reg-remove-last-idle.ops'],
+        'corpus': ['reg-remove-zero-delegation.ops', 'reg-remove-last-idle.ops', 'reg-remove-while-paused.ops'],
         'families': [gen('registry', 40, 120), gen('mixed', 15, 120)],
         'slice': [r'reg\..*', r'hub\.redel', r'hub\.bond', r'hub\.bondst', r'hub\.ugi', r'env\.noredel'],
         'explanation': 'registry removal / hub proxy / chain redelegation proved step by step (plan sums to the whole delegation via C12, targets still registered); end-to-end RemoveValidator transactions on the minichain with pending rewards, in-flight batches, blocked redelegations, removal and re-addition sequences',
